@@ -72,7 +72,7 @@ def brute_force_counterpart(c, w, k):
 
 def run(ctx):
     ok_proofs = ctx.check_props(extra=["theories/Corr/Corr_C06.v"])
-    per, n, max_insts = (12, 2, 12) if ctx.quick else (45, 3, 14)
+    per, n, max_insts = (20, 2, 12) if ctx.quick else (45, 3, 14)
     cases, gstats = cc.build_cases(ctx, per, max_insts)
     live = [c for c in cases if c.live]
     reports = cc.coq_reports(ctx, live, lambda c: cc.complete_term(c, c.spec["aux"], n), label="complete",
